@@ -264,6 +264,46 @@ def gen_file(rng):
             "raw_ts": rng.random() < 0.3, "shape": shape}
 
 
+def gen_file_many(rng):
+    """More than 100 segments: two int32 channels whose per-segment value counts are identical for the
+    first 101+ segments and differ afterwards (the shared, de-duplicated offset index compares arrays in
+    blocks of 100 entries)."""
+    types = [T_I32, T_I32]
+    nseg = rng.randint(104, 124)
+    change_at = rng.randint(101, nseg - 2)
+    counts = [0, 0]
+    layout = {0: (2, None), 1: (2, None)}
+    blob, segs, shape = b"", [], []
+    for si in range(nseg):
+        if si == 0:
+            toc = TOC_META | TOC_RAW | TOC_NEWOBJ
+            objs_enc = [enc_obj(chan_path(0), (T_I32, 2)), enc_obj(chan_path(1), (T_I32, 2))]
+            kind = "new"
+        elif si == change_at:
+            layout[1] = (3, None)
+            toc = TOC_META | TOC_RAW
+            objs_enc = [enc_obj(chan_path(1), (T_I32, 3))]
+            kind = "inc"
+        else:
+            toc, objs_enc, kind = TOC_RAW, None, "same"
+        nchunks = 1
+        row, data, objs_abs = [], b"", []
+        for c in (0, 1):
+            n = layout[c][0]
+            labels = list(range(counts[c], counts[c] + n))
+            counts[c] += n
+            row.append(labels)
+            data += enc_values(T_I32, c, labels, None)
+            objs_abs.append((c, n, n * SIZES[T_I32]))
+        seg_bytes, meta_end = enc_segment(toc, objs_enc, data)
+        segs.append({"pos": len(blob), "data_pos": len(blob) + meta_end, "raw": True, "il": False,
+                     "objs": objs_abs, "chunks": [row]})
+        shape.append("%s%d" % (kind, nchunks))
+        blob += seg_bytes
+    return {"bytes": blob, "types": types, "chans": [0, 1], "segs": segs, "lengths": counts,
+            "raw_ts": False, "shape": shape}
+
+
 def coq_file(F):
     segs = []
     for s in F["segs"]:
@@ -733,7 +773,7 @@ def work(args):
 def work1(args):
     seed, fidx, nhist = args
     rng = random.Random("%d/%d" % (seed, fidx))
-    F = gen_file(rng)
+    F = gen_file_many(rng) if fidx % 50 == 7 else gen_file(rng)
     fresh = Fresh(F)
     labels = labels_of(F)
     res = {"fidx": fidx, "shape": F["shape"], "types": [TYPE_NAMES[t] for t in F["types"]],
@@ -866,7 +906,8 @@ def main():
         "window reads use the specification 'values of the window' in the model; windows spanning a segment in "
         "which the channel is absent are compared against the fresh file only while defect D3 is unfixed",
         "files: 1-4 segments, 2-3 channels of int32/float64/string/timestamp, 1-4 chunks, contiguous and "
-        "interleaved, incremental metadata, segments without metadata or without raw data; little-endian"]
+        "interleaved, incremental metadata, segments without metadata or without raw data; little-endian; one file in "
+        "50 has 104-124 segments with two channels whose per-segment counts agree for the first 101+ segments"]
     # fixed first case: the D4 witness
     Fw, ops_w = d4_witness()
     fresh_w = Fresh(Fw)
@@ -903,6 +944,8 @@ def main():
         run.count("stream_positions_compared_with_model", r["positions"])
         for k, v in r["dist"].items():
             run.count(k if k.startswith("histories_") else "op_" + k, v)
+        if len(r["shape"]) > 100:
+            run.count("files_with_more_than_100_segments")
         for sh in r["shape"]:
             run.count("segment_" + sh.rstrip("01234"))
         for t in r["types"]:
